@@ -397,14 +397,14 @@ theorem c16_source_pins :
     KM.Gen.Pins.SaveUserProfile = "058f951a55bc49b13e72" ∧
     KM.Gen.Pins.u2fTokenManagerHandler = "7509db22e477f6130434" ∧
     KM.Gen.Pins.totpTokenManagerHandler = "c62269ed8bc05f5b35ab" ∧
-    KM.Gen.Pins.BootstrapOtpAuthHandler = "bd21ab21a6f2c34f27be" ∧
+    KM.Gen.Pins.BootstrapOtpAuthHandler = "bbd50321353caeeacbc7" ∧
     KM.Gen.Pins.userBootstrapOtpHash = "b6575c4fc52137bab8fb" ∧
     KM.Gen.Pins.performStateCleanup = "6927c0c0ef032c2ee15c" ∧
     KM.Gen.Pins.consumeLoginChallenge = "0bd6f92d7c6e11787aa0" ∧
     KM.Gen.Pins.u2fSignRequest = "0fc992789dbf32c74202" ∧
-    KM.Gen.Pins.u2fSignResponse = "7a87d1c56ebeff1164e7" ∧
+    KM.Gen.Pins.u2fSignResponse = "1bb702a0f4caba07564b" ∧
     KM.Gen.Pins.webauthnAuthLogin = "a9de7e8bace8d59bb16e" ∧
-    KM.Gen.Pins.webauthnAuthFinish = "da6e8a8cc3fe9baad399" := by
+    KM.Gen.Pins.webauthnAuthFinish = "57089464356c1dbf38b2" := by
   exact ⟨rfl, rfl, rfl, rfl, rfl, rfl, rfl, rfl, rfl, rfl, rfl, rfl⟩
 
 end KM.Conc
